@@ -112,7 +112,32 @@ func.func public @f({", ".join(a + " : " + t for a, t in zip(args, types))}) {{
 
 def gen_case(rng, plain=False, fam=None):
     """plain: default (row-major) layouts on every operand and no set-memory-layout"""
-    fam = fam or rng.choice(["alu", "alu", "gemm", "gemm", "gemm"])
+    fam = fam or rng.choice(["alu", "alu", "gemm", "gemm", "gemm", "xdma"])
+    if fam == "xdma":
+        # the xDMA with a width-changing extension kernel (rescale down i32 -> i8, up i8 -> i32): reader and writer move different numbers
+        # of bytes per element
+        ti, to = rng.choice([("i32", "i8"), ("i8", "i32")])
+        n = rng.choice([64, 128, 256])
+        def xl(w):
+            r = rng.random()
+            return "" if r < 0.6 or plain else f", strided<[1], offset: {rng.choice([0, 64, 128])}>"
+        tin, tout = f"memref<{n}x{ti}{xl(ti)}>", f"memref<{n}x{to}{xl(to)}>"
+        text = f"""builtin.module {{
+func.func public @f(%a : {tin}, %e : {tout}) {{
+  "dart.operation"(%a, %e) <{{patterns = [affine_map<(d0) -> (d0)>, affine_map<(d0) -> (d0)>], accelerator = "snax_xdma", operandSegmentSizes = array<i32: 1, 1>}}> ({{
+  ^bb0(%s0 : !dart.stream<{ti}>, %s1 : !dart.stream<{to}>):
+    %s3 = "dart.generic"(%s0) <{{library_call = "snax_xdma"}}> ({{
+    ^bb1(%k0 : {ti}, %k2 : {to}):
+      %k3 = kernel.rescale %k0 {{input_zp = 1 : i32, output_zp = -2 : i32, multiplier = array<i32: 1234>, shift = array<i8: 9>, min_int = -128 : i32, max_int = 127 : i32, double_round = false}} : ({ti}) -> {to}
+      dart.yield %k3 : {to}
+    }}) : (!dart.stream<{ti}>) -> !dart.stream<{to}>
+    dart.yield %s3 : !dart.stream<{to}>
+  }}) : ({tin}, {tout}) -> ()
+  func.return
+}}
+}}
+"""
+        return text, "snax_xdma", False
     if fam == "alu" and not plain and rng.random() < 0.2:
         # windows: operands that read / write different positions of one buffer (x[4:20] + x[20:36], the two rows of a matrix, the second
         # half of a buffer from its first half) next to operands with a buffer of their own
@@ -291,7 +316,7 @@ def build_cases(text, acc, setlayout, name, rep):
     for sch in schs:
         tmpl = accel.get_template(sch)
         info.append(([b.value.data for b in sch.bounds.data], [AffineTransform.from_affine_map(p.data) for p in sch.patterns.data],
-                     [o.type for o in sch.operands], list(sch.operands), tmpl, tmpl.num_dims))
+                     [o.type for o in sch.operands], list(sch.operands), tmpl, tmpl.num_dims, list(accel.get_streamers(sch))))
     try:
         repo.run_pipeline(m, "dart-layout-resolution,convert-dart-to-snax-stream")
     except REFUSALS + (AssertionError, VerifyException) as e:
@@ -307,15 +332,17 @@ def build_cases(text, acc, setlayout, name, rep):
         rep.refused += 1      # some operation of the module was not lowered (declared: left as it is)
         return []
     cases = []
-    for opk, (sr, (bounds, pats, types, operands, tmpl, T)) in enumerate(zip(srs, info)):
-        cases += cases_of_region(sr, bounds, pats, types, operands, tmpl, T, accel, f"{name}@op{opk}" if len(srs) > 1 else name, text, rep)
+    for opk, (sr, (bounds, pats, types, operands, tmpl, T, strs)) in enumerate(zip(srs, info)):
+        # (the xDMA's streamers depend on the extension that executes the kernel; the other accelerators have one fixed configuration)
+        cases += cases_of_region(sr, bounds, pats, types, operands, tmpl, T, accel, f"{name}@op{opk}" if len(srs) > 1 else name, text, rep,
+                                 strs if acc == "snax_xdma" else None, mover=1 if acc == "snax_xdma" else 0)
     return cases
 
 
-def cases_of_region(sr, bounds, pats, types, operands, tmpl, T, accel, name, text, rep):
+def cases_of_region(sr, bounds, pats, types, operands, tmpl, T, accel, name, text, rep, streamers=None, mover=0):
     ptrs = list(sr.inputs) + list(sr.outputs)
     sps = sr.stride_patterns.data
-    streamers = accel.streamer_config.data.streamers
+    streamers = streamers or accel.streamer_config.data.streamers
     cases = []
     seen_operands = set()
     for i, (ptr, sp) in enumerate(zip(ptrs, sps)):
@@ -333,7 +360,7 @@ def cases_of_region(sr, bounds, pats, types, operands, tmpl, T, accel, name, tex
         rel = [1 if x else 0 for x in tmpl[idx].pattern.A.any(axis=0).tolist()]
         cases.append({"kind": "stream", "name": f"{name}#operand{idx}@streamer{i}", "bounds": bounds, "T": T,
                       "A": [[int(x) for x in r] for r in pats[idx].A], "b": [int(x) for x in pats[idx].b], "rel": rel,
-                      "L": layout_record(t), "w": t.element_type.size, "base": off, "tb": [int(x) if x else 0 for x in tmpl[idx].bounds],
+                      "L": layout_record(t), "w": t.element_type.size, "base": off, "tb": [int(x) if x else 0 for x in tmpl[idx].bounds], "mover": mover,
                       "ub": [x.data for x in sp.upper_bounds.data], "ts": [x.data for x in sp.temporal_strides.data],
                       "ss": [x.data for x in sp.spatial_strides.data], "sb": [int(x) for x in streamers[i].spatial_dims],
                       "text": text, "type": str(t), "pattern": str(sp)})
@@ -349,6 +376,10 @@ def run(pid: str, tier: str, seed: int, selftest=False, replay=None) -> int:
     rep = Report(pid, tier, seed)
     known = KnownFindings()
     rng = random.Random(seed)
+    ctx0 = repo.opt_main().ctx
+    if "snax_xdma" not in ctx0.registered_accelerator_names:
+        from snaxc.accelerators.snax_xdma import SNAXXDMAAccelerator
+        ctx0.register_accelerator("snax_xdma", lambda: SNAXXDMAAccelerator())   # as snaxc does for a cluster with an xDMA
     n = 600 if tier == "quick" else 5000
     cases = []
     sources = []
